@@ -60,6 +60,7 @@ def run(ctx):
     r.load_table("c15.json")
     r.rule("C15.shared", "nothing reachable from apply_rules writes state that outlives the call")
     r.rule("C15.order", "order-preserving dispatch and aggregation; same callable in serial and pool branches")
+    r.rule("C15.position", "the file's position in the run is only forwarded: it takes part in no decision, index or result")
     r.rule("C15.channel", "stdin and file channels share the reader; the stdin flag is consulted nowhere else")
     r.explanation = (
         "Every function reachable from vsg.apply_rules:apply_rules in the may-call graph is scanned for in-place mutation sites; each "
@@ -259,6 +260,7 @@ def run(ctx):
         r.ok("C15.shared", "no-dynamic-code", "no exec/eval/compile/__import__ in vsg/")
 
     _order(r, p)
+    _position(r, p, cg)
     _channel(r, p)
     return r
 
@@ -393,6 +395,56 @@ def _taint(p, cg, entry, reach):
     return {"params": params, "locals": locals_, "fields": fields, "why": why}
 
 
+def _position(r, p, cg):
+    """apply_rules receives (position in the run, file name).  A file's result must not depend on where it stands in the
+    run, so the position may be handed on as an argument but must never be used: no subscript, comparison, arithmetic,
+    condition, attribute or return may read a name that carries it (inter-procedural: parameters that receive it)."""
+    ar = p.function("vsg.apply_rules:apply_rules")
+    unpack = [n for n in walk_function(ar.node) if isinstance(n, ast.Assign) and isinstance(n.targets[0], ast.Tuple) and len(n.targets[0].elts) == 2 and isinstance(n.value, ast.Name) and n.value.id in ar.params]
+    if not unpack:
+        raise AnalysisError("apply_rules no longer unpacks (index, file name)")
+    pos = norm(unpack[0].targets[0].elts[0])
+    tainted = {(ar.key, pos)}
+    work = [(ar, pos)]
+    n_fw = 0
+    while work:
+        fi, name = work.pop()
+        for n in walk_function(fi.node):
+            if not (isinstance(n, ast.Name) and n.id == name and isinstance(n.ctx, ast.Load)):
+                continue
+            par = getattr(n, "_parent", None)
+            call = None
+            if isinstance(par, ast.Call) and (n in par.args):
+                call = par
+            elif isinstance(par, ast.keyword):
+                call = getattr(par, "_parent", None)
+            if call is not None:
+                site = None
+                for s in cg.sites.get(fi.key, ()):
+                    if s.node is call:
+                        site = s
+                if site is not None and site.kind == "resolved" and site.targets and all(t.module.name.startswith("vsg") for t in site.targets):
+                    n_fw += 1
+                    for t in site.targets:
+                        params = t.params[1:] if (t.cls is not None and t.params and t.params[0] == "self" and isinstance(call.func, ast.Attribute)) else t.params
+                        pn = None
+                        if isinstance(par, ast.keyword):
+                            pn = par.arg if par.arg in t.params else None
+                        else:
+                            i = call.args.index(n)
+                            pn = params[i] if i < len(params) else None
+                        if pn and (t.key, pn) not in tainted:
+                            tainted.add((t.key, pn))
+                            work.append((t, pn))
+                    continue
+            kk = "%s:%s:%s" % (fi.key, name, norm(par)[:60] if par is not None else "?")
+            r.fail("C15.position", kk, "`%s` carries the file's position in the run and is used in `%s`: the file's configuration or result then depends on which files were named before it" % (name, norm(par)[:70] if par is not None else name), fi.loc(n))
+    r.extra["position_carriers"] = sorted("%s(%s)" % k for k in tainted)
+    if len(tainted) < 3:
+        raise AnalysisError("the run position is not forwarded anywhere: anchor changed")
+    r.ok("C15.position", ar.key, "the position is forwarded through %d call(s) to %d parameter(s) and read nowhere else" % (n_fw, len(tainted) - 1))
+
+
 def _order(r, p):
     main = p.function("vsg.__main__:main")
     fn = main.node
@@ -480,6 +532,8 @@ def _channel(r, p):
 
 
 VARIANTS = [
+    Variant("C15", "per-file configuration looked up by the file's position in the run", "fire",
+            [("vsg/apply_rules.py", "        iMyIndex = get_index_of_filename_in_file_list(configuration, section, sFileName)", "        iMyIndex = iIndex if iIndex < len(configuration[section]) else get_index_of_filename_in_file_list(configuration, section, sFileName)")], rule="C15.position"),
     Variant("C15", "revert of the allow-list fix (alias mutation)", "fire",
             [("vsg/rules/blank_line_below_line_ending_with_token.py", "            lAllowTokens = self.lAllowTokens + [token.pragma.pragma]\n            _analyze_require_blank_line(self, lToi, lAllowTokens)",
               "            self.lAllowTokens.append(token.pragma.pragma)\n            _analyze_require_blank_line(self, lToi, self.lAllowTokens)")], rule="C15.shared", key="lAllowTokens"),
